@@ -46,6 +46,45 @@ subroutine red(a, b, idx, s, t, n)
   a(1) = a(1) + sum(b(idx(1:2), :))
 end subroutine red
 """,
+    "misc": """
+subroutine misc(a, b, n, flag)
+  integer, intent(in) :: n
+  logical, intent(in) :: flag
+  real, intent(inout) :: a(n), b(n)
+  integer :: i, j
+  real :: t, u
+  do i = 1, n
+    if (flag) then
+      t = 2.0
+    end if
+    u = 3.0
+    a(i) = t + u
+  end do
+  if (flag) then
+    do i = 1, n
+      b(i) = a(i)
+    end do
+  else
+    b(1) = 0.0
+  end if
+  do i = 1, n
+    do j = 1, n
+      if (a(i) > 0.0) then
+        if (b(j) > 0.0) then
+          u = 1.0
+        end if
+      end if
+    end do
+    t = abs(a(i)) + max(u, b(i))
+    call sub(t)
+    b(i) = sum(a) + t
+  end do
+  b(:) = a(:) + t
+  do while (t > 0.0)
+    t = t - 1.0
+  end do
+end subroutine misc
+""",
     "tile": """
 subroutine tile(a, b, n, m)
   integer, intent(in) :: n, m
@@ -322,7 +361,9 @@ def _run(chk, quick, rng, findings):
         generic = [s for s in specs if s["kind"] in ("generic", "alg")]
         small = [s for s in specs if s["kind"] == "minif"]
         psy = [s for s in specs if s["kind"] == "psy"]
-        specs = rng.sample(small, 2) + rng.sample(generic, 1) + rng.sample(psy, 1) + rng.sample(generic + small, 1)
+        extra = [s for s in small if s["name"] in EXTRA]
+        gen = [s for s in small if s["name"] not in EXTRA]
+        specs = extra + rng.sample(gen, 1) + rng.sample(generic, 1) + rng.sample(psy, 1)
     else:
         rng.shuffle(specs)
     changed = S.changed_classes()
